@@ -493,3 +493,22 @@ class OrderLine(metaclass=StableHashMeta):
     line_no: Optional[int] = field(default=None, metadata={"type": "Attribute"})
     unit_price: Optional[Decimal] = field(default=None, metadata={"type": "Element"})
     order_items: list[str] = field(default_factory=list, metadata={"type": "Element"})
+
+
+class LooseEnum(Enum):
+    """Base of enumerations that an optional plug-in (m_conv, a late module) matches case-insensitively."""
+
+
+class Shade(LooseEnum):
+    RED = "red"
+    GREEN = "green"
+
+
+@dataclass
+class Painted(metaclass=StableHashMeta):
+    class Meta:
+        name = "painted"
+        namespace = "urn:e"
+
+    shade: Optional[Shade] = field(default=None, metadata={"type": "Attribute"})
+    shades: list[Shade] = field(default_factory=list, metadata={"type": "Element", "name": "tint"})
